@@ -28,6 +28,7 @@ RULE = ("lattice: grids (nelx,nely[,nelz]) up to the bound; AssembleGeneral with
         "{ones,coded,with zeros}, plus the reduced option product bc{none,single,edge,scattered} x bcdiagval x "
         "add_constant{none,sparse} x matrix_type{csc,csr} x x{ones,coded,with zeros} at the last material point. "
         "A case is non-trivial if elements share nodes (nel>1) or dim==3; distinct by (kind,grid,size,axis of case)")
+RULE += " Extended in seeding rounds 6-7:  the bc array re-used by the caller after construction; matrices of earlier responses held by reference."
 ASSUMPTIONS = [
     "reference shape functions, 3-point Gauss rule, textbook Hooke matrices and dense scatter loops in pmc/refs/fe.py",
     "numpy.linalg.eigvalsh as trusted kernel for the PSD test",
